@@ -54,6 +54,14 @@ def blfeedTrace : BLRecv → List Byte → Option (List Char × List (List Byte)
         | none => none
         | some (ss, ps) => some (stsChar s :: ss, pk ++ ps)
 
+/-- legacy trace with the lines exactly as the API hands them over (CRC byte included) -/
+def lfeedTraceRaw : LRecv → List Byte → List Char × List (List Byte)
+  | _, [] => ([], [])
+  | r, c :: cs =>
+    let (r1, s) := lnewchar r c
+    let (ss, ps) := lfeedTraceRaw r1 cs
+    (stsChar s :: ss, if s = NEWPACKAGE then r1.getline :: ps else ps)
+
 def showTrace (t : List Char × List (List Byte)) : String :=
   (if t.1.isEmpty then "-" else String.ofList t.1) ++ " " ++
   (if t.2.isEmpty then "none" else ",".intercalate (t.2.map bytesHex))
@@ -93,9 +101,18 @@ def stepLine (_ : Unit) (line : String) : Unit × String :=
     | "encvec" :: codec :: pieces => do
         let ps ← pieces.mapM parseBytes?
         let ctx ← ctxOf? codec
-        match gstuffingVec ctx ps with
+        match gstuffingVecW ctx ps with
         | some out => pure (bytesHex out)
         | none => pure "fault"
+    | "vecbuf" :: codec :: pieces => do
+        -- size of the buffer the self-sizing overload allocates (`ret.resize(sz * 2 + 4)`)
+        let ps ← pieces.mapM parseBytes?
+        let _ ← ctxOf? codec
+        pure (toString (vecBufSize (ps.map List.length).sum))
+    | ["rtraw", "leg", cap, p] => do
+        let p ← parseBytes? p
+        let cap ← cap.toNat?
+        pure (showTrace (lfeedTraceRaw (LRecv.init cap) (gstuffingLeg p)))
     | ["rt", codec, cap, p] => do
         let p ← parseBytes? p
         let cap ← cap.toNat?
